@@ -82,6 +82,7 @@ Apply(r) == st' = r.st /\ g' = r.g /\ ge' = r.ge /\ bad' = bad \cup r.bad
 ----------------------------------------------------------------------------
 Connect(c) ==
     /\ Running /\ ConnectEnabled(st, c)
+    /\ ~st.cli[c].lastNotDisc        \* the client runs a frame (its reset) before it connects again, as in MC_Core
     /\ st.ev.sess[c] = 0 \/ b.recon < Reconnects
     /\ st' = ConnectIt(st, c)
     /\ ge' = EvGhostConnect(ge, c)
@@ -124,8 +125,10 @@ CliFrame(c) ==
     /\ \E r \in {CliStep(st, g, ge, c)} : Apply(r)
 
 DeliverUpd(c) == Running /\ DeliverUpdEnabled(st, c) /\ st' = DeliverUpdF(st, c) /\ UNCHANGED <<g, ge, b, bad>>
-DeliverEvS(c, t) == Running /\ DeliverEvSEnabled(st, c, t, 1) /\ st' = DeliverEvSF(st, c, t, 1) /\ UNCHANGED <<g, ge, b, bad>>
-DeliverEvC(c, t) == Running /\ DeliverEvCEnabled(st, c, t, 1) /\ st' = DeliverEvCF(st, c, t, 1) /\ UNCHANGED <<g, ge, b, bad>>
+DeliverEvS(c, t, i) == Running /\ DeliverEvSEnabled(st, c, t, i) /\ st' = DeliverEvSF(st, c, t, i) /\ UNCHANGED <<g, ge, b, bad>>
+DeliverEvC(c, t, i) == Running /\ DeliverEvCEnabled(st, c, t, i) /\ st' = DeliverEvCF(st, c, t, i) /\ UNCHANGED <<g, ge, b, bad>>
+DropEvS(c, t, i) == Running /\ DropEvSEnabled(st, c, t, i) /\ st' = DropEvSF(st, c, t, i) /\ UNCHANGED <<g, ge, b, bad>>
+DropEvC(c, t, i) == Running /\ DropEvCEnabled(st, c, t, i) /\ st' = DropEvCF(st, c, t, i) /\ UNCHANGED <<g, ge, b, bad>>
 
 ----------------------------------------------------------------------------
 (* settle: perfect link *)
@@ -169,8 +172,8 @@ Next ==
     \/ \E t \in SEmitTypes, mode \in Modes, to \in Client \cup {None}, e \in Ent \cup {None} : EmitS(t, mode, to, e)
     \/ \E c \in Client, t \in CEmitTypes, e \in Ent \cup {None} : EmitC(c, t, e)
     \/ \E doTick \in BOOLEAN : SrvFrame(doTick)
-    \/ \E c \in Client, t \in SEvSet : DeliverEvS(c, t)
-    \/ \E c \in Client, t \in CEvSet : DeliverEvC(c, t)
+    \/ \E c \in Client, t \in SEvSet, i \in 1..2 : DeliverEvS(c, t, i) \/ DropEvS(c, t, i)
+    \/ \E c \in Client, t \in CEvSet, i \in 1..2 : DeliverEvC(c, t, i) \/ DropEvC(c, t, i)
     \/ Settle
 
 Spec == Init /\ [][Next]_vars
